@@ -15,6 +15,9 @@ import (
 
 var c13Replies [][]byte
 
+// when set, sending a "done" reply blocks until the gate is closed
+var c13SendGate chan struct{}
+
 func c13Setup() *DatabaseAPI {
 	c13Replies = nil
 	rt.FsFaults(0)
@@ -23,8 +26,12 @@ func c13Setup() *DatabaseAPI {
 	_ = database.Initialize(utils.NewDirStructure(rt.Root("/data"), 0o755))
 	_, err := database.Register(&database.Database{Name: "tdb", Description: "t", StorageType: "hashmap"})
 	rt.Assert(err == nil, "setup/register-database")
+	c13SendGate = nil
 	api := CreateDatabaseAPI(func(data []byte) {
 		c13Replies = append(c13Replies, append([]byte{}, data...))
+		if c13SendGate != nil && bytes.HasSuffix(data, []byte("|done")) {
+			<-c13SendGate // a slow connection: the writer blocks on this reply
+		}
 	})
 	return &api
 }
@@ -214,4 +221,55 @@ func VerifC13_Sub() {
 		rt.Assert(kinds[2] == "done", "sub/done-after-cancel")
 	}
 	rt.Reach("sub-end")
+}
+
+// ---- O5: cancels racing with each other and with the connection shutdown:
+// nothing crashes, the subscription ends exactly once ----
+
+func VerifC13_CancelRaces() {
+	rt.SchedYieldOnly(false) // every blocking point is a scheduling choice
+	api := c13Setup()
+	api.Handle(c13Msg("s5", "sub", "query tdb:s/"))
+	rt.Quiesce(time.Second)
+	variant := rt.Choice("variant", 4)
+	switch variant {
+	case 3: // second cancel while the final "done" is still being written
+		c13SendGate = make(chan struct{})
+		api.Handle([]byte("s5|cancel"))
+		rt.Quiesce(time.Second)
+		api.Handle([]byte("s5|cancel"))
+		rt.Quiesce(time.Second)
+		close(c13SendGate)
+	case 0: // the same subscription cancelled twice
+		api.Handle([]byte("s5|cancel"))
+		api.Handle([]byte("s5|cancel"))
+	case 1: // cancel, then the connection goes away
+		api.Handle([]byte("s5|cancel"))
+		close(api.shutdownSignal)
+	case 2: // the connection goes away while the subscription is live
+		close(api.shutdownSignal)
+	}
+	rt.Quiesce(time.Second)
+	done, errs := 0, 0
+	for _, r := range c13Replies {
+		if bytes.HasPrefix(r, []byte("s5|")) {
+			switch c13Kind(r) {
+			case "done":
+				done++
+			case "error":
+				errs++
+			default:
+				rt.Assert(false, "cancelraces/only-done-or-error-replies")
+			}
+		}
+	}
+	rt.Assert(done <= 1, "cancelraces/at-most-one-done")
+	if variant == 0 || variant == 3 {
+		rt.Assert(done == 1, "cancelraces/cancelled-subscription-ends-with-done")
+		rt.Assert(errs <= 1, "cancelraces/second-cancel-at-most-one-error")
+	}
+	api.subsLock.Lock()
+	rt.Assert(len(api.subs) == 0, "cancelraces/subscription-removed")
+	api.subsLock.Unlock()
+	rt.Reach("cancelraces-end")
 }
